@@ -54,6 +54,29 @@ func instrCoq(i code.Instr) string {
 	return vlib.App("mkinstr", name, operandCoq(i.Operand))
 }
 
+// objCoq renders the real object code: instructions, string table, regexp
+// table, metric kinds / types / arities (four arguments of CSurf / CGen).
+func objCoq(obj *code.Object) string {
+	var is, ss, rs, ms []string
+	for _, i := range obj.Program {
+		is = append(is, instrCoq(i))
+	}
+	for _, s := range obj.Strings {
+		ss = append(ss, gen.CoqBytes(s))
+	}
+	for _, r := range obj.Regexps {
+		rs = append(rs, gen.CoqBytes(r.String()))
+	}
+	for _, m := range obj.Metrics {
+		k := map[metrics.Kind]string{metrics.Counter: "KCounter", metrics.Gauge: "KGauge", metrics.Timer: "KTimer",
+			metrics.Text: "KText", metrics.Histogram: "KHistogram"}[m.Kind]
+		t := map[metrics.Type]string{metrics.Int: "TyInt", metrics.Float: "TyFloat", metrics.String: "TyString",
+			metrics.Buckets: "TyBuckets"}[m.Type]
+		ms = append(ms, tup(k, t, vlib.Nat(len(m.Keys))))
+	}
+	return vlib.List(is) + " " + vlib.List(ss) + " " + vlib.List(rs) + " " + vlib.List(ms)
+}
+
 // dumpCase: tie (1).  The model code generator (Lang/Codegen.v) applied to the
 // intended tree must give exactly the object the real parser + checker +
 // codegen produced from the source text: instructions with operands, string
